@@ -24,6 +24,10 @@ var rectOps = []string{"contains", "contains", "intersects", "intersects", "inte
 
 func (rectArea) Gen(r *hx.Rng, n int, _ string, emit func(string)) {
 	for i := 0; i < n; i++ {
+		if r.Chance(1, 6) {
+			emit(genRectDouble(r))
+			continue
+		}
 		a, b := gx.RectPair(r)
 		op := hx.Pick(r, rectOps)
 		switch op {
@@ -118,6 +122,46 @@ func (rectArea) Gen(r *hx.Rng, n int, _ string, emit func(string)) {
 	}
 }
 
+// genRectDouble makes a line of kind rd: float64 rectangles that are NOT exactly representable sums (fractional
+// coordinates and sizes, tiny / large / mixed magnitudes, abutting through the rounded far edge, an edge one ulp off, probe
+// points on an edge and one ulp beside it — the pairs of the floatspec oracle), as IEEE bit patterns.  The model runs the
+// same functions at Lean's Float (IEEE double) and the results are compared bit for bit: under rounding.
+func genRectDouble(r *hx.Rng) string {
+	a, b, px, py := fspecPair(r)
+	op := hx.Pick(r, rectOps)
+	switch op {
+	case "in":
+		a[0], a[1] = px, py
+	case "expand":
+		b[0], b[1] = px, py
+	case "inset":
+		for k := range b {
+			b[k] = float64(r.Range(-30, 60)) / 10
+		}
+	}
+	parts := []string{"rd", op}
+	for _, v := range append(a[:], b[:]...) {
+		parts = append(parts, b64(v))
+	}
+	return strings.Join(parts, " ")
+}
+
+// joinBits prints float64 values as IEEE bit patterns (both zeros as 0, any NaN as nan)
+func joinBits(fs ...float64) string {
+	parts := make([]string, len(fs))
+	for i, f := range fs {
+		switch {
+		case f != f:
+			parts[i] = "nan"
+		case f == 0:
+			parts[i] = b64(0)
+		default:
+			parts[i] = b64(f)
+		}
+	}
+	return strings.Join(parts, " ")
+}
+
 func b2s(b bool) string {
 	if b {
 		return "true"
@@ -156,11 +200,11 @@ func rectOpI(op string, v []int) string {
 	return "bad-op"
 }
 
-func rectOpF(op string, v []float64) string {
+func rectOpF(op string, v []float64, join func(...float64) string) string {
 	a := geom.NewRect(v[0], v[1], v[2], v[3])
 	b := geom.NewRect(v[4], v[5], v[6], v[7])
-	rs := func(r geom.Rect[float64]) string { return gx.JoinF(r.X, r.Y, r.Width, r.Height) }
-	ps := func(p geom.Point[float64]) string { return gx.JoinF(p.X, p.Y) }
+	rs := func(r geom.Rect[float64]) string { return join(r.X, r.Y, r.Width, r.Height) }
+	ps := func(p geom.Point[float64]) string { return join(p.X, p.Y) }
 	switch op {
 	case "contains":
 		return b2s(a.Contains(b))
@@ -181,7 +225,7 @@ func rectOpF(op string, v []float64) string {
 		if c.X != a.CenterX() || c.Y != a.CenterY() {
 			return "center-inconsistent"
 		}
-		return b2s(a.Empty()) + " " + gx.JoinF(a.Right(), a.Bottom(), a.CenterX(), a.CenterY()) + " " + ps(a.TopLeft()) +
+		return b2s(a.Empty()) + " " + join(a.Right(), a.Bottom(), a.CenterX(), a.CenterY()) + " " + ps(a.TopLeft()) +
 			" " + ps(a.TopRight()) + " " + ps(a.BottomRight()) + " " + ps(a.BottomLeft())
 	}
 	return "bad-op"
@@ -196,7 +240,17 @@ func (rectArea) Run(line string) string {
 	case "ri", "rw":
 		return rectOpI(f[1], gx.Is(f[2:]))
 	case "rf":
-		return rectOpF(f[1], gx.Fs(f[2:]))
+		return rectOpF(f[1], gx.Fs(f[2:]), gx.JoinF)
+	case "rd":
+		v := make([]float64, 8)
+		for i, w := range f[2:] {
+			u, err := strconv.ParseUint(w, 16, 64)
+			if err != nil || len(w) != 16 {
+				return "bad-op"
+			}
+			v[i] = math.Float64frombits(u)
+		}
+		return rectOpF(f[1], v, joinBits)
 	}
 	return "bad-op"
 }
